@@ -52,9 +52,12 @@ def gen_case(cid, kinds, cfg, generic):
     ign = cfg.get("ignore", set())
     fign = cfg.get("field_ignore", {})
     vrefs = cfg.get("variant_refs", set())
-    has_named = any(KINDS[k][0] for k in kinds)
-    do_unwrap = not has_named
-    do_tryinto = not generic  # coherence forbids `impl<T> TryFrom<E<T>> for T`
+    # Unwrap/TryUnwrap do not support struct-like variants - unless every one of them is ignored (their values still are inputs)
+    do_unwrap = all(KINDS[k][0] is not True or vi in ign for vi, k in enumerate(kinds))
+    # coherence forbids `impl<T> TryFrom<E<T>> for T` (and `for &T`): generic enums derive TryInto unless a variant converts to the bare parameter
+    gt = {tuple(t for fi, t in enumerate(KINDS[k][1]) if fi not in fign.get(vi, ())) for vi, k in enumerate(kinds) if vi not in ign}
+    overlap = any(a != b and len(a) == len(b) and all(x == y or "Fa" in (x, y) for x, y in zip(a, b)) for a in gt for b in gt)   # `(T, Fb)` and `(T, T)` meet at T = Fb
+    do_tryinto = not generic or (("Fa",) not in gt and not overlap)
     T = "T" if generic else "Fa"
 
     def ty(t):
